@@ -12,7 +12,7 @@ import sys
 from concurrent.futures import ThreadPoolExecutor
 
 VERIF = os.path.dirname(os.path.dirname(os.path.abspath(__file__)))
-PIDS = ['C%02d' % i for i in range(1, 20)]
+PIDS = os.environ.get('PIDS', '').split() or ['C%02d' % i for i in range(1, 20)]
 
 
 def sh(cmd, **kw):
